@@ -412,16 +412,23 @@ func (r *RateLimiterRules) Rule(
 	}
 
 	if hint.ClientID != "" && (r.clientid != nil && l.Type() == "clientid") &&
-		l.UpdatedAt() >= r.clientid.UpdatedAt() {
+		l.UpdatedAt() >= r.clientid.UpdatedAt() &&
+		l.Desc() == clientIDRuleDesc(hint.ClientID) { // NOTE only the limiter of the same client id
 		return l, false
 	}
 
-	if r.nets != nil && l.Type() == "net" && l.UpdatedAt() >= r.nets.UpdatedAt() {
+	// NOTE client id rule set comes first; the limiter of the next rule sets can
+	// be kept without asking it, only if the request can not match it.
+	noclientid := hint.ClientID == "" || r.clientid == nil
+
+	if noclientid && r.nets != nil && l.Type() == "net" && l.UpdatedAt() >= r.nets.UpdatedAt() {
 		return l, false
 	}
 
-	if i, isnew, found := r.ruleByNode(addr, handler, hint, l); found {
-		return i, isnew
+	if noclientid {
+		if i, isnew, found := r.ruleByNode(addr, handler, hint, l); found {
+			return i, isnew
+		}
 	}
 
 	checksum, rule, t, desc, refreshed := r.rule(addr, handler, hint, l.Type(), l.UpdatedAt())
@@ -891,7 +898,11 @@ func (rs ClientIDRateLimiterRuleSet) Rule(
 
 	l, found := rs.rule(hint.ClientID, handler)
 
-	return "", l, fmt.Sprintf(`{"client_id":%q}`, hint.ClientID), found
+	return "", l, clientIDRuleDesc(hint.ClientID), found
+}
+
+func clientIDRuleDesc(clientid string) string {
+	return fmt.Sprintf(`{"client_id":%q}`, clientid)
 }
 
 type addrPool struct {
